@@ -216,7 +216,7 @@ pub fn run(cfg: &Cfg) -> Report {
             tree("str::substring"), tree("str::to_uppercase"), tree("str::to_lowercase"), tree("str::trim"), tree("typeof"),
         );
         for n in super::scale::sizes(cfg.tier == Tier::Thorough) {
-            let positions: Vec<usize> = if n <= 20 { (0..n).collect() } else { vec![0, 1, n / 2, n - 2, n - 1] };
+            let positions: Vec<usize> = if n <= 40 { (0..n).collect() } else { vec![0, 1, 7, 8, 9, 15, 16, 17, n / 2, n - 2, n - 1] };
             for &k in &positions {
                 for extreme in [RV::Int(-5), RV::Float(-5.5), RV::Int(1 << 40), RV::Float(1e15)] {
                     let mut t: Vec<RV> = (0..n).map(|i| if i % 3 == 1 { RV::Float(10.5 + i as f64) } else { RV::Int(10 + i as i64) }).collect();
@@ -232,6 +232,14 @@ pub fn run(cfg: &Cfg) -> Report {
                 check_case("contains_any", &t_any, &RV::Tuple(vec![RV::Tuple(hay.clone()), RV::Tuple(vec![RV::Int(-1), RV::Str("zz".into()), needle])]), unit, &mut stats);
                 check_case("contains_any", &t_any, &RV::Tuple(vec![RV::Tuple(vec![RV::Int(-1)]), RV::Tuple(hay.clone())]), unit, &mut stats);
                 stats.count("scaling-family-cases");
+            }
+            for &k in &positions {
+                let mut chars: Vec<char> = (0..n).map(|i| char::from(b'a' + (i % 26) as u8)).collect();
+                chars[k] = if k % 2 == 0 { 'é' } else { 'Ä' };
+                let sv = RV::Str(chars.into_iter().collect());
+                check_case("str::to_uppercase", &t_up, &sv, unit, &mut stats);
+                check_case("str::to_lowercase", &t_low, &sv, unit, &mut stats);
+                check_case("len", &t_len, &sv, unit, &mut stats);
             }
             let tup = RV::Tuple((0..n).map(|i| RV::Int(i as i64)).collect());
             check_case("len", &t_len, &tup, unit, &mut stats);
